@@ -1,6 +1,7 @@
 #!/bin/bash
 # runs every thorough check in turn against $VERIF_REPO (default /repo); prints one summary line per property
-for P in C16 C13 C06 C08 C07 C09 C10 C11 C12 C15 C14 C04 C03 C05 C02 C01; do
+LIST=${@:-C16 C13 C06 C08 C07 C09 C10 C11 C12 C15 C14 C04 C03 C05 C02 C01}
+for P in $LIST; do
   S=$(date +%s)
   ./check $P --tier thorough > thorough_$P.log 2>&1
   RC=$?
